@@ -16,6 +16,7 @@ from .values import (SV, Ver, DictVal, SetVal, ListVal, PObj, ItemsView, AssignV
                      BuiltinClass, Builtin, ModuleRef, SuperRef, SeqIter, Unsupported, PathInfeasible, VerifBug,
                      PyExc, is_num, zreal, zint, is_intlike, Opaque)
 from . import folds as FO
+from . import lists as LS
 
 
 class _Return(Exception):
@@ -71,6 +72,7 @@ class Engine:
         self.call_stack = []
         self.frame_writes = None
         self.store_eqs = []
+        self._lists = None
         self.gen_state = None
         self._objs = {}
         self.nalloc = 0
@@ -243,6 +245,12 @@ class Engine:
         if isinstance(v, PObj):
             if v.store is not None:
                 return FO.fold(self, self.store_of(v), "size") != 0
+            if getattr(v, "lstore", None) is not None:
+                return self.lver_of(v).length != 0
+            return True
+        if isinstance(v, LS.OptRid):
+            return z3.Not(v.isnone)
+        if isinstance(v, SV) and v.t == "rid":
             return True
         if isinstance(v, SetVal):
             return v.card != 0
@@ -292,6 +300,21 @@ class Engine:
             return obj.ver
         raise Unsupported("dict-like expected, got %r" % (obj,))
 
+    def lver_of(self, obj):
+        h = obj.lstore if isinstance(obj, PObj) else obj
+        if isinstance(h, LS.LVer):
+            return h
+        if self.old is not None and id(h) in self.old:
+            return self.old[id(h)]
+        return h.ver
+
+    def write_lstore(self, holder, ver):
+        if self.spec:
+            raise Unsupported("heap write inside a specification expression")
+        if self.frame_writes is not None:
+            self.frame_writes.add(id(holder))
+        holder.ver = ver
+
     def get_attr_raw(self, obj, name):
         if self.old is not None and (id(obj), name) in self.old:
             return self.old[(id(obj), name)]
@@ -315,9 +338,14 @@ class Engine:
                     visit(val)
                 if v.store is not None:
                     visit(v.store)
+                if getattr(v, "lstore", None) is not None:
+                    visit(v.lstore)
             elif isinstance(v, SetVal):
                 seen.add(id(v))
                 snap[id(v)] = (v.mem, v.card)
+            elif isinstance(v, LS.LHolder):
+                seen.add(id(v))
+                snap[id(v)] = v.ver
             elif isinstance(v, ListVal):
                 seen.add(id(v))
                 snap[id(v)] = list(v.items)
@@ -413,6 +441,16 @@ class Engine:
     def compare(self, op, a, b):
         """-> python bool or z3 Bool"""
         if isinstance(op, (ast.Is, ast.IsNot)):
+            if isinstance(a, LS.OptRid) and b is None or isinstance(b, LS.OptRid) and a is None:
+                o = a if isinstance(a, LS.OptRid) else b
+                return o.isnone if isinstance(op, ast.Is) else z3.Not(o.isnone)
+            if (isinstance(a, SV) and a.t == "rid" and b is None) or (isinstance(b, SV) and b.t == "rid" and a is None):
+                return isinstance(op, ast.IsNot)
+            if self._isres(a) and self._isres(b):
+                ea, na = self._res(a)
+                eb, nb = self._res(b)
+                r = z3.And(na == nb, z3.Implies(z3.Not(na), ea == eb))
+                return r if isinstance(op, ast.Is) else z3.Not(r)
             if a is None or b is None:
                 r = (a is None and b is None)
             elif isinstance(a, (PObj, DictVal, ListVal, SetVal)) or isinstance(b, (PObj, DictVal, ListVal, SetVal)):
@@ -431,6 +469,11 @@ class Engine:
                 r = (not r) if isinstance(r, bool) else z3.Not(r)
             return r
         # ordering
+        if self._isres(a) or self._isres(b):
+            if not (self._isres(a) and self._isres(b)):
+                raise Unsupported("ordering between a result and a non-result")
+            ea, eb = self._res_notnone(a), self._res_notnone(b)
+            a, b = SV(LS.rval(ea), "real"), SV(LS.rval(eb), "real")
         if a is None or b is None:
             raise PyExc("TypeError", "ordering comparison with None")
         inf = float("inf")
@@ -458,7 +501,34 @@ class Engine:
             return x >= y
         raise Unsupported("compare %s" % type(op).__name__)
 
+    def _isres(self, v):
+        return isinstance(v, LS.OptRid) or (isinstance(v, SV) and v.t == "rid")
+
+    def _res(self, v):
+        if isinstance(v, LS.OptRid):
+            return v.rid, v.isnone
+        return v.e, z3.BoolVal(False)
+
+    def _res_notnone(self, v):
+        """the id of a result that must not be None here (AnnealResult.__lt__/__eq__ on None raises)"""
+        if isinstance(v, LS.OptRid):
+            if self.spec:
+                return v.rid
+            if self.branch(v.isnone):
+                raise PyExc("TypeError", "comparison with None result")
+            return v.rid
+        return v.e
+
     def equals(self, a, b):
+        if self._isres(a) and (self._isres(b) or b is None):
+            # AnnealResult.__eq__(a, b) compares the fields; b must not be None
+            ea = self._res_notnone(a)
+            if b is None:
+                raise PyExc("AttributeError", "NoneType has no attribute state")
+            eb = self._res_notnone(b)
+            LS.register_rid(self, ea)
+            LS.register_rid(self, eb)
+            return LS.req(ea, eb)
         if a is None or b is None:
             return a is None and b is None
         if isinstance(a, str) or isinstance(b, str):
@@ -914,8 +984,15 @@ class Engine:
             self.write_attr(owner, attr, self.havoc_value(v, path.replace(".", "_")))
         return keys
 
+    def fresh_optrid(self, hint):
+        self.nfresh += 1
+        r = LS.new_rid(self, hint)
+        return LS.OptRid(z3.Bool("%s_none!%d" % (hint, self.nfresh)), r.e)
+
     def havoc_value(self, v, hint):
         """fresh value of the same shape"""
+        if isinstance(v, LS.OptRid) or (isinstance(v, SV) and v.t == "rid"):
+            return self.fresh_optrid(hint) if isinstance(v, LS.OptRid) else LS.new_rid(self, hint)
         if isinstance(v, SV):
             return self.fresh(v.t, hint)
         if isinstance(v, bool):
@@ -927,6 +1004,13 @@ class Engine:
         return Opaque("havocked %s (was %s)" % (hint, type(v).__name__))
 
     def havoc_object(self, o, hint):
+        if isinstance(o, LS.LHolder):
+            self.write_lstore(o, LS.base(self, hint))
+            return
+        if isinstance(o, PObj) and getattr(o, "lstore", None) is not None:
+            self.havoc_object(o.lstore, hint)
+            if "best" not in o.attrs or o.attrs["best"] is None:
+                self.write_attr(o, "best", self.fresh_optrid(hint + "_best"))
         if isinstance(o, DictVal):
             self.write_store(o, FO.base(self, o.ver.ksort, o.ver.vsort, hint))
         elif isinstance(o, PObj):
@@ -935,7 +1019,7 @@ class Engine:
             for a, val in list(o.attrs.items()):
                 if isinstance(val, (DictVal, SetVal)):
                     self.havoc_object(val, hint + "_" + a)
-                elif isinstance(val, (SV, int, float, bool)) and not isinstance(val, str):
+                elif isinstance(val, (SV, int, float, bool, LS.OptRid)) and not isinstance(val, str):
                     self.write_attr(o, a, self.havoc_value(val, hint + "_" + a))
         elif isinstance(o, SetVal):
             self.nfresh += 1
@@ -984,6 +1068,11 @@ class Engine:
                         raise Unsupported("loop body writes the dict being iterated")
         elif isinstance(it, SV) and it.t == "key":
             ckind, coll = "key", it
+        elif isinstance(it, PObj) and getattr(it, "lstore", None) is not None:
+            ckind, coll = "list", self.lver_of(it)
+        elif isinstance(it, LS.ResIter) or (isinstance(it, SeqIter) and it.kind in ("genexp", "mapped", "filtered")
+                                           and self._over_results(it)):
+            ckind, coll = "results", None
         elif isinstance(it, SeqIter) and it.kind == "gen":
             ckind, coll = "gen", it.data
         elif isinstance(it, SeqIter) and it.kind == "range":
@@ -1015,6 +1104,10 @@ class Engine:
             self.facts.key(g0.e)
         elif ckind == "gen":
             g0 = 0
+        elif ckind == "list":
+            g0 = LS.empty(self)
+        elif ckind == "results":
+            g0 = None
         else:
             g0 = SV(coll[0], "int")
         self.oblige("%s/%s.init" % (qn, kindname), inv(g0))
@@ -1024,7 +1117,11 @@ class Engine:
             v = fr.locals[n]
             if isinstance(v, (DictVal, PObj, SetVal)):
                 continue
-            fr.locals[n] = self.havoc_value(v, n)
+            kind = spec.get("vars", {}).get(n)
+            if kind == "optrid":
+                fr.locals[n] = self.fresh_optrid(n)
+            else:
+                fr.locals[n] = self.havoc_value(v, n)
         allowed = set()
         for on in sorted(objnames | set(live)):
             allowed |= self.havoc_path(fr, on)
@@ -1053,6 +1150,18 @@ class Engine:
                 self.assume(coll.e == self.facts.concat(pre2.e, rest.e))
                 self.facts.add(T.memb(i.e, coll.e))
                 item, vis2 = i, pre2
+            elif ckind == "list":
+                vis = LS.base(self, "visited")
+                fr.locals[gname] = vis
+                self.assume(inv(vis))
+                r = LS.new_rid(self, "elem")
+                self.assume(z3.Select(coll.cnt, r.e) > z3.Select(vis.cnt, r.e))
+                self.assume(vis.length < coll.length)
+                item, vis2 = r, LS.append(self, vis, r.e)
+            elif ckind == "results":
+                fr.locals[gname] = None
+                self.assume(inv(None))
+                item, vis2 = LS.new_rid(self, "elem"), None
             elif ckind == "gen":
                 gc, genv = coll["contract"], coll["env"]
                 part = self.fresh("real", "partial")
@@ -1105,6 +1214,10 @@ class Engine:
             gN = coll
         elif ckind == "key":
             gN = coll
+        elif ckind == "list":
+            gN = coll
+        elif ckind == "results":
+            gN = None
         elif ckind == "gen":
             gfr = Frame(coll["closure"], dict(coll["env"]))
             gN = self.eval_spec(coll["contract"].gen["total"], coll["env"], gfr)
@@ -1112,6 +1225,18 @@ class Engine:
             gN = SV(z3.If(coll[1] >= coll[0], coll[1], coll[0]), "int")
         fr.locals[gname] = gN
         self.assume(inv(gN))
+
+    def _over_results(self, it):
+        """is this generator/filter/map drawn from a list of results?"""
+        if it.kind == "genexp":
+            n, fr = it.data
+            try:
+                src = self.eval(n.generators[0].iter, fr)
+            except Unsupported:
+                return False
+        else:
+            src = it.data[1]
+        return isinstance(src, LS.ResIter) or (isinstance(src, PObj) and getattr(src, "lstore", None) is not None)
 
     def _preexisting(self, w, mark):
         oid = w[0] if isinstance(w, tuple) else w
@@ -1317,7 +1442,7 @@ class Engine:
 
     def eval_index(self, sl, fr):
         if isinstance(sl, ast.Slice):
-            raise Unsupported("slice assignment")
+            return SV(None, "slice")
         return self.eval(sl, fr)
 
     def getslice(self, obj, sl, fr):
@@ -1340,7 +1465,8 @@ class Engine:
 
     def getitem(self, obj, idx):
         if isinstance(obj, PObj):
-            if obj.store is not None or self.db.find_method(obj.cls, "__getitem__")[1] is not None:
+            if obj.store is not None or self.db.find_method(obj.cls, "__getitem__")[1] is not None \
+               or getattr(obj, "lstore", None) is not None:
                 return self.call_method(obj, "__getitem__", [idx], {})
         if isinstance(obj, DictVal):
             ver = self.store_of(obj)
@@ -1461,6 +1587,18 @@ class Engine:
             return Builtin("m." + name, recv=obj)
         if isinstance(obj, BuiltinClass) or (isinstance(obj, Builtin) and obj.recv is None and obj.name in self.BUILTIN_CLASSES):
             return Builtin(obj.name + "." + name)
+        if self._isres(obj):
+            if name == "value":
+                e = obj.rid if isinstance(obj, LS.OptRid) else obj.e
+                if isinstance(obj, LS.OptRid) and not self.spec:
+                    if self.branch(obj.isnone):
+                        raise PyExc("AttributeError", "NoneType has no attribute value")
+                return SV(LS.rval(e), "real")
+            if name in ("state", "spin"):
+                return Opaque("result." + name)
+            raise Unsupported("attribute %s of a result" % name)
+        if isinstance(obj, Opaque):
+            return Builtin("opaque")
         if isinstance(obj, SV) and name in ("subs", "simplify"):
             raise PyExc("AttributeError", name)
         if is_num(obj) and name in ("subs", "simplify"):
@@ -1626,7 +1764,11 @@ class Engine:
         if self.db.is_subclass(cls, "dict"):
             obj.store = self.alloc(DictVal(FO.empty(self, T.Key, T.Real), pyclass=cls.name))
         if self.db.is_subclass(cls, "list"):
-            obj.items = []
+            obj.lstore = self.alloc(LS.LHolder(LS.empty(self)))
+        if cls.name == "AnnealResult":
+            # abstract result object: an id with rval(id) == value
+            value = args[1] if len(args) > 1 else kwargs.get("value")
+            return LS.new_rid(self, "res", zreal(value))
         c = self.contracts.get("class:" + cls.name)
         if c is not None and c.usable_at_call(self, {"args": tuple(args), "kwargs": kwargs}):
             self.used_contracts.add("class:" + cls.name)
